@@ -26,6 +26,7 @@ FAMILY_BOUNDS = {
     'expand': 'all templates of length <= 6 (quick: as many as fit in the time budget, lengths ascending; >= all of length <= 5) over {$ { } \\ g < > 0 1 9 x _ e-acute space} x 3 regex/captures setups (named, numbered, unmatched groups) x both expanders: expansion, append_expansion, escape round trip, check, Captures::expand',
     'replace': '~70 patterns x ~35 texts x backtrack limits {default,1,3} x limits 0..3 x 12 templates + NoExpand + closures; equality of template-without-$ / NoExpand / closure results INCLUDING whether the result is Err (patterns whose (n+1)-th search exceeds the limit)',
     'refsem': 'independent reference matcher (ordered backtracking over its own syntax tree) vs Regex::captures_from_pos, overall span and every group, at every char-boundary start offset: ~250 fixed shapes (repeats of hard bodies in tail / non-tail position, every empty / easy-with-choices / hard combination of conditional branches) then pseudo-random patterns of depth 2..4 (seeded; as many as fit in the budget, ~1000 patterns/s) x all 781 texts over {a,b,c,e-acute,-} of length <= 4 plus 5 longer ones; left out: unbounded repeats of empty-matchable bodies (F1), conditionals below a commit (KF2), \\K in look-arounds, back-references to open groups',
+    'progwf': 'executable rendering of prog_wf (the ASSUMED precondition of vm::run: targets inside the program, no fall-through off the end, slots < n_saves, counter slots disjoint from position slots) on the programs the real analyze + compile emit for the corpus (~80), the 462 group-metadata patterns, the ~250 fixed reference-matcher shapes and seeded pseudo-random reference-matcher patterns (~12 000 / s), each wrapped as Regex::new wraps it',
     'quote': 'all strings of length <= 3 over a 28-symbol alphabet (every meta-character, 2-4 byte characters) x 5 host patterns x 7 texts',
 }
 
